@@ -526,7 +526,13 @@ func (s *Sim) register(t *Task, name string) {
 }
 
 // Sleeping reports whether the task is parked on the simulated clock (scheduler goroutine only).
-func (t *Task) Sleeping() bool { return !t.done && t.parked && t.lastKind == KSleep }
+func (t *Task) Sleeping() bool {
+	if t.done || !t.parked || t.lastKind != KSleep {
+		return false
+	}
+	w, _ := slotWake(t)
+	return w > ClockNanos() // a sleeper whose time has come is runnable, not sleeping
+}
 
 // Tasks returns the live tasks.
 func (s *Sim) Tasks() []*Task {
